@@ -9,7 +9,7 @@ CONSTANTS
   MaxBlank = 1
   Names <- C15_Names
   SigmaSet <- C15_Sigma
-  BlankPool <- C15_Blank
+  BlankPool <- C15_Blank3
   LinePool <- C15_Pool
 INVARIANTS TypeOK SpellingInvariance RenderMatchesRule ForestMatchesTrie WalkMatchesRule AcceptsWellFormed NoSilentLoss
 CHECK_DEADLOCK FALSE
